@@ -314,6 +314,10 @@ func runC06(toks []string) Result {
 // runIsolated re-invokes the harness for one case in a child process with a memory limit and a deadline;
 // a child that dies is the observable "abort".
 func runIsolated(prop string, toks []string) Result {
+	return runIsolatedFor(prop, toks, 5*time.Second)
+}
+
+func runIsolatedFor(prop string, toks []string, limit time.Duration) Result {
 	cmd := exec.Command(os.Args[0], append([]string{"one", prop}, toks...)...)
 	cmd.Env = append(os.Environ(), "VH_CHILD=1", "GOMEMLIMIT=1GiB", "GOTRACEBACK=none")
 	var out bytes.Buffer
@@ -328,9 +332,9 @@ func runIsolated(prop string, toks []string) Result {
 		if err != nil {
 			return Result{Obs: "abort", Oracle: "fail:process aborted (" + err.Error() + ")", Tags: []string{"isolated", "nt"}}
 		}
-	case <-time.After(5 * time.Second):
+	case <-time.After(limit):
 		cmd.Process.Kill()
-		return Result{Obs: "hang", Oracle: "fail:no result within 5s", Tags: []string{"isolated", "nt"}}
+		return Result{Obs: "hang", Oracle: "fail:no result within " + limit.String(), Tags: []string{"isolated", "nt"}}
 	}
 	f := strings.Split(strings.TrimRight(out.String(), "\n"), "\t")
 	res := Result{Obs: f[0], Oracle: "na", Tags: []string{"isolated"}}
